@@ -18,8 +18,9 @@ CONSTANTS MW1, MW2,   \* lattice extents (axis 0 = y, axis 1 = x)
           MRefl,      \* reflection bits as in Multipatch.tla
           MaxConds    \* all condition lists up to this length (plus the whole outer boundary)
 
-VARIABLES phase, c
-vars == <<phase, c>>
+VARIABLES phase, c,
+          sys          \* the complex, computed once in Init (operators of an instance are not cached by TLC)
+vars == <<phase, c, sys>>
 
 MP == INSTANCE Multipatch WITH
         Kind <- "lattice", D <- 2, W1 <- MW1, W2 <- MW2, W3 <- 1, NN <- MNN, ReflSeed <- MRefl, K <- 0,
@@ -31,22 +32,28 @@ N  == MNN * MNN
 SeqRange(s) == {s[k] : k \in 1..Len(s)}
 SortedSeq(S) == SetToSortSeq(S, <)
 
-Label == MP!ClassLabel                       \* dof -> representative of its class (all interfaces joined)
+AllDofs == 0..(NP * N - 1)
+Faces == (0..(NP - 1)) \X {1, 2} \X {0, 1}
+SysDef == [label |-> MP!ClassLabel,           \* dof -> representative of its class (all interfaces joined)
+           point |-> [d \in AllDofs |-> MP!Point(d)],
+           face  |-> [fc \in Faces |-> MP!FaceSeq(fc[1], fc[2], fc[3])]]
+Label == sys.label
+PointOf(d) == sys.point[d]
+FaceSeqOf(p, ax, side) == sys.face[<<p, ax, side>>]
 FP(f, pt) == (((((5 * pt[1]) + (3 * pt[2])) + (pt[1] * pt[2]) + f) * (f + 2)) % 13) - 6
-CoefOf(f, d) == FP(f, MP!Point(d))
+CoefOf(f, d) == FP(f, PointOf(d))
 
 \* faces of the outer boundary: the face's lattice points lie on the border of the whole lattice
 Outer(p, ax, side) ==
-  LET pts == {MP!Point(p * N + i) : i \in SeqRange(MP!FaceSeq(p, ax, side))}
+  LET pts == {PointOf(p * N + i) : i \in SeqRange(FaceSeqOf(p, ax, side))}
       hi  == IF ax = 1 THEN MW1 * (MNN - 1) ELSE MW2 * (MNN - 1) IN
   (\A pt \in pts : pt[ax] = 0) \/ (\A pt \in pts : pt[ax] = hi)
-Faces == {<<p, ax, side>> \in (0..(NP - 1)) \X {1, 2} \X {0, 1} : TRUE}
 OuterFaces == {fc \in Faces : Outer(fc[1], fc[2], fc[3])}
 
 Case(conds) ==
   LET lab   == Label
       cover == [q \in 1..Len(conds) |->
-                  {conds[q].p * N + i : i \in SeqRange(MP!FaceSeq(conds[q].p, conds[q].ax + 1, conds[q].side))}]
+                  {conds[q].p * N + i : i \in SeqRange(FaceSeqOf(conds[q].p, conds[q].ax + 1, conds[q].side))}]
       labs  == SortedSeq({lab[d] : d \in UNION {cover[q] : q \in 1..Len(conds)}})
   IN [conds |-> conds,
       entries |-> [k \in 1..Len(labs) |->
@@ -56,7 +63,7 @@ Case(conds) ==
 
 Cond(fc, f) == [p |-> fc[1], ax |-> fc[2] - 1, side |-> fc[3], f |-> f]
 
-Init == phase = "start" /\ c = <<>>
+Init == phase = "start" /\ c = <<>> /\ sys = SysDef
 Pick ==
   /\ phase = "start"
   /\ \/ \E f1 \in Faces, g1 \in {1, 2} : c' = Case(<<Cond(f1, g1)>>)
@@ -66,7 +73,7 @@ Pick ==
           LET fs == SetToSortSeq(OuterFaces, LAMBDA x, y :
                        x[1] < y[1] \/ (x[1] = y[1] /\ (x[2] < y[2] \/ (x[2] = y[2] /\ x[3] < y[3])))) IN
           c' = Case([k \in 1..Len(fs) |-> Cond(fs[k], g1)])
-  /\ phase' = "case"
+  /\ phase' = "case" /\ UNCHANGED sys
   /\ Emit("MPBC", c')
 Next == Pick
 Spec == Init /\ [][Next]_vars
@@ -83,6 +90,6 @@ EmitSys == phase = "start" =>
   Emit("MPSYS", [W |-> <<MW1, MW2>>, NN |-> MNN, NP |-> NP, reflseed |-> MRefl,
                  refl |-> [p \in 1..NP |-> [a \in 1..2 |-> MP!Refl(p - 1, a)]],
                  label |-> [i \in 1..(NP * N) |-> Label[i - 1]],
-                 point |-> [i \in 1..(NP * N) |-> MP!Point(i - 1)],
+                 point |-> [i \in 1..(NP * N) |-> PointOf(i - 1)],
                  coef |-> [f \in 1..2 |-> [i \in 1..(NP * N) |-> CoefOf(f, i - 1)]]])
 =============================================================================
